@@ -55,7 +55,7 @@ PNODE = Family(
     'PNode',
     attrs={'type': STR, 'value': STR, 'start_pos': POS, 'end_pos': POS, 'parent': Opt(_P),
            'children': Seq(_P), 'prefix': STR, 'is_leaf': BOOL, 'line': INT, 'column': INT,
-           'name': _P},
+           'name': _P, 'star_count': INT, 'annotation': Opt(_P), 'default': Opt(_P), 'position_index': INT},
     attr_requires={'children': 'not o.is_leaf', 'value': 'o.is_leaf', 'prefix': 'o.is_leaf'},
     methods={
         'get_definition': _pm('get_definition', [('import_name_always', BOOL), ('include_setitem', BOOL)],
